@@ -2,12 +2,13 @@
 from .. import common as C
 
 ID = "C07"
-MODULES = ["Helios.Props.CodeCB", "Helios.Props.C07"]
+MODULES = ["Helios.Props.CodeCB", "Helios.Props.C07", "Helios.Props.Facts"]
 THEOREMS = [
     "Helios.CB.trips", "Helios.CB.blocks_while_open", "Helios.CB.halfopen_budget",
     "Helios.CB.closes_only_after_trial_successes", "Helios.CB.reopens_on_trial_failure",
     "Helios.CB.stale_completion_ignored",
     "Helios.CodeTie.beforeRequest_refines", "Helios.CodeTie.afterRequest_refines", "Helios.CodeTie.translation_clean_cb",
+    "Helios.Facts.execute_panic_is_failure_and_propagates",
 ]
 DEF_NS = 60 * 10**9
 
